@@ -2,7 +2,7 @@
    Convergence of the sweeps is NOT a theorem (partial).
    Only theorem statements closed by `exact`, each followed by Print Assumptions. *)
 From Coq Require Import List Arith.
-From TT Require Import RingSig SumN Mat Core Arith CoreP ArithP MatOps MatOpsP Skel SkelP.
+From TT Require Import RingSig SumN Mat Core Arith CoreP ArithP MatOps MatOpsP Skel SkelP Struct Local LocalP.
 Import ListNotations.
 Section C13.
 Context {R : Type} {RO : RingOps R} {RL : RingLaws R}.
@@ -20,6 +20,20 @@ Theorem C13_rank_search_spec ok n : 1 <= n ->
   let r := rank_search ok n in
   1 <= r <= n /\ (forall j, r <= j < n -> ok j = true) /\ (r <= 2 \/ ok (r - 1) = false).
 Proof. exact (rank_search_spec ok n). Qed.
+(* the local operator of the division at ANY position (Model/Local.v with the divisor's cores as a diagonal operator; the interface recursions of
+   torchtt/_division.py are tied to it exactly over Gaussian integers): it is the projection of the entrywise product with y on the frame of the
+   current quotient - sum_i conj(F e1 [i]) y[i] F e2 [i] - for every order, position, mode sizes and rank profile, real and complex *)
+Theorem C13_division_local_dense {R : Type} {RO : RingOps R} {RL : RingLaws R} (pre post ypre ypost : tt R) (yk : core3 R) ra rb l0 m0 L0 r0' n0 R0 :
+  length ypre = length pre -> length ypost = length post ->
+  l0 < ra -> r0' < ra -> L0 < rb -> R0 < rb -> m0 < nn yk -> n0 < nn yk ->
+  wf (pre ++ unit3 ra (nn yk) rb l0 m0 L0 :: post) -> wf (ypre ++ yk :: ypost) -> wf (pre ++ unit3 ra (nn yk) rb r0' n0 R0 :: post) ->
+  chained rb post -> chained (r1 yk) ypost ->
+  local_mat (phiF pre (diag_tt ypre) pre ones3) (diag_core yk) (phiB post (diag_tt ypost) post) l0 m0 L0 r0' n0 R0
+  = sum_idx (shape (ypre ++ yk :: ypost)) (fun is_ =>
+      rmul (rmul (rconj (entry (pre ++ unit3 ra (nn yk) rb l0 m0 L0 :: post) is_)) (entry (ypre ++ yk :: ypost) is_))
+           (entry (pre ++ unit3 ra (nn yk) rb r0' n0 R0 :: post) is_)).
+Proof. exact (division_local_dense pre post ypre ypost yk ra rb l0 m0 L0 r0' n0 R0). Qed.
 Print Assumptions C13_div_scalar_exact.
 Print Assumptions C13_mul_full.
 Print Assumptions C13_rank_search_spec.
+Print Assumptions C13_division_local_dense.
